@@ -856,7 +856,7 @@ func runC08R10(c *Ctx, rule string) {
 					continue
 				}
 				if last == nil || a.Step >= last.step {
-					last = &test{a.Step, a.Val == (b.Op == token.EQL), p.Op(fa, x)}
+					last = &test{a.Step, a.Val, p.Op(fa, x)} // equality atoms are kept in == form whatever the operator
 				}
 			}
 			n++
